@@ -596,7 +596,7 @@ class Engine:
                 pass
             finally:
                 work.extend(self.pending)
-            if self._path_obl > 0 and (self._sym_branches > 0 or len(self.pc) > 0):
+            if self._path_obl > 0:
                 self.stats["nontrivial_paths"] += 1
             if len(self.samples) < 4 and kind in ("ok", "exc") and self._path_obl > 0 and (self.stats["paths"] % 7 == 1):
                 self.samples.append(self.sample(outcome))
